@@ -2,7 +2,7 @@
 """Regenerates /verif/MANIFEST.json from the table below (kept next to the checks so that it stays current)."""
 import json, os
 V = os.path.dirname(os.path.dirname(os.path.abspath(__file__)))
-MC = "stateless model checking of the implementation: exhaustive delay-bounded schedule enumeration of the instrumented interpreter under a controlled scheduler"
+MC = "stateless model checking of the implementation: exhaustive delay-bounded schedule enumeration (plus dynamic partial-order reduction in the thorough tier) of the instrumented interpreter under a controlled scheduler"
 EX = "bounded-exhaustive enumeration of the input space with an independent reference model as oracle"
 checks = {
  "C01": ("model_checking", MC, "Every schedule with delay <= d of every driver program, in all three execution modes with and without a monitor, is executed on the real interpreter under a controlled scheduler; no execution may panic, receive on a closed channel, use a nil channel or fail to return."),
@@ -30,7 +30,7 @@ m = {"version": 1, "setup_cmd": "./setup.sh",
  "hooks": {"guard": "verif", "enable": "none needed: every check instruments a scratch copy of /repo's working tree with engine/vinstr (no hooks are committed to the repository)",
            "baseline_off_cmd": "cd /repo && go test -vet=off -count=1 ./...", "source_commits": [], "add_only": True},
  "engines": [
-  {"name": "vsched", "path": "engine/zverif/vsched", "serves_properties": ["C01", "C02", "C03", "C04", "C09", "C14", "C19"], "kind_free_text": "source instrumenter (engine/vinstr) + controlled scheduler over real Go channels + delay-bounded / full DFS over schedules"},
+  {"name": "vsched", "path": "engine/zverif/vsched", "serves_properties": ["C01", "C02", "C03", "C04", "C09", "C14", "C19"], "kind_free_text": "source instrumenter (engine/vinstr) + controlled scheduler over real Go channels + delay-bounded / full / DPOR depth-first search over schedules; reference LTS R-sem for conformance"},
   {"name": "enumerators+reference models", "path": "engine/zverif/gen, engine/zverif/ref", "serves_properties": ["C05", "C06", "C07", "C08", "C10", "C11", "C12", "C15", "C16", "C17"], "kind_free_text": "bounded-exhaustive input enumeration checked against independent reference models (R-mode, R-wf, R-infer, R-eq, R-tc, R-gram)"}],
  "checks": [], "not_applicable": [],
  "notes": "All checks rebuild an instrumented scratch copy of /repo's working tree on every invocation (check.sh). known_findings.txt lists known/fixed findings."}
